@@ -402,6 +402,24 @@ func c20(tier string, args []string) int {
 				name string
 				log  []storage.Message
 			}{"later-proposal-in-dump/", "the opening proposal of a second round (never confirmed) posted after the round went on signing", insertAfter(len(lastOM.Log)-1, later)})
+			// the same on a board of the 0.1.4 generation: its signing proposal had no batches
+			// ({SigningID, ParticipantId, SrcPayload, CreatedAt}, layout from the 0.1.4 sources)
+			{
+				var keygen []storage.Message
+				for _, m := range lastOM.Log {
+					if m.Event == "event_signing_start" {
+						break
+					}
+					keygen = append(keygen, m)
+				}
+				p0 := lastRec.W.Nodes[0]
+				old := world.SignedMessage(lastOM.Round, "event_signing_start", world.MustJSON(map[string]interface{}{"SigningID": "0.1.4-signing", "ParticipantId": 0, "SrcPayload": []byte("message to sign"), "CreatedAt": world.T0}), p0.Name, p0.KeyPair.Priv, "")
+				junks = append(junks, struct {
+					key  string
+					name string
+					log  []storage.Message
+				}{"later-proposal-in-0.1.4-dump/", "a 0.1.4-style signing proposal of participant 0 after the key generation and, later, the opening proposal of a second round (never confirmed)", append(append(keygen, old), later)})
+			}
 			for k, m := range lastOM.Log {
 				if m.Event == "event_sig_proposal_confirm_by_participant" && m.SenderAddr == lastOM.Names[0] {
 					relabelled := m
@@ -431,6 +449,50 @@ func c20(tier string, args []string) int {
 				c20KeyPrefix = ""
 				scen++
 			}
+		}
+	}
+	// (8) an honest history: a first attempt with the same participants on the same board was given
+	// up after its deals, the second attempt went through; with and without the 0.1.4 adaptation
+	if !r.TimeUp() {
+		rec2, err := world.RecordCeremony(2, 2, []world.BatchSpec{{ID: "A-batch", Proposer: 0, Tasks: world.SimpleTasks("a", []byte("round A"))}})
+		if err != nil {
+			r.Infra("recording: %v", err)
+		}
+		roundA := rec2.Round
+		roundB, err := rec2.SecondRound(2, world.BatchSpec{ID: "B-batch", Proposer: 1, Tasks: world.SimpleTasks("b", []byte("round B"))})
+		if err != nil {
+			r.Infra("second round: %v", err)
+		}
+		recB := *rec2
+		recB.Round = roundB
+		omB := materialOf(&recB, 2)
+		lastDealA := -1
+		for k, m := range rec2.Log {
+			if m.DkgRoundID == roundA && m.Event == "event_dkg_deal_confirm_received" {
+				lastDealA = k
+			}
+		}
+		var log []storage.Message
+		for k, m := range rec2.Log {
+			if m.DkgRoundID == roundA && k > lastDealA {
+				continue
+			}
+			log = append(log, m)
+		}
+		omB.Log = log
+		for _, adapted := range []bool{false, true} {
+			label := "a first attempt given up after its deals, then the recorded ceremony of the same participants on the same board"
+			if adapted {
+				label += ", self-confirmations removed and re-added by the 0.1.4 adaptation"
+			}
+			c20KeyPrefix = "abandoned-first-attempt-in-dump/"
+			reinitAndCheck(r, omB, label, adapted, adapted)
+			c20KeyPrefix = ""
+			scen++
+		}
+		rec2.W.Close()
+		for _, a := range rec2.W.Airs {
+			os.RemoveAll(a.Dir)
 		}
 	}
 	// (7) a hand-written line in the board file that leaves every field but the recipient out, right
